@@ -360,9 +360,9 @@ class NetworkGraph(AbstractBaseIR):
             stds += v
             nodes.append(source)
 
-        # a delay of at most one step is neglected — per edge, whatever the other edges of the group need
-        means = [0 if (("int" in str(type(m)) and m <= 1) or ("float" in str(type(m)) and m <= self.step_size)) and not v_tmp else m
-                 for m, v_tmp in zip(means, stds)]
+        # a discretised delay of at most one step is neglected — per edge, whatever the other edges of the group need (a delay
+        # that stays in time units, i.e. under an adaptive step size, becomes a past() term as soon as the group is delayed at all)
+        means = [0 if "int" in str(type(m)) and m <= 1 and not v_tmp else m for m, v_tmp in zip(means, stds)]
 
         # check whether edge delays have to be implemented or can be ignored
         max_delay = np.max(means)
